@@ -160,3 +160,9 @@ func VerifEntries(idx VerifIndex) []VerifEntry {
 func VerifSaveFile(idx VerifIndex, cachePath string) error { return idx.serializeToFile(cachePath) }
 
 func VerifLoadFile(cachePath string) (VerifIndex, error) { return deserializeIndexFile(cachePath) }
+
+// VerifCoveragesBuf is VerifCoverages with the caller's range buffer threaded through, as the
+// directory scan does from one font to the next.
+func VerifCoveragesBuf(c font.Cmap, buffer [][2]rune) (RuneSet, ScriptSet, [][2]rune) {
+	return newCoveragesFromCmap(c, buffer)
+}
